@@ -190,3 +190,114 @@ mark_recursive.callees['self._mark_recursive'] = mark_recursive
 
 
 CONTRACTS = [hmesh_refine, mark_recursive] + [_children_contract(d) for d in (1, 2, 3)] + [_parent_contract(d) for d in (1, 2, 3)]
+
+
+# ---- representation invariant of the cached index tables ---------------------------------------------------------------------
+# HSpace caches canonical index tables (__ravel_global, __index_dirichlet, __ravel_dirichlet), which are functions of
+# actfun / deactfun / the mesh.  Invariant: "cache empty or consistent with the state".  Every public method that changes
+# that state must therefore end with self._clear_cache() on its normal path (private helpers are covered through their callers).
+
+_STATE_ATTRS = ('actfun', 'deactfun', 'hmesh')
+_MUT_METHODS = ('append', 'pop', 'add', 'discard', 'remove', 'update', 'clear', 'extend', 'insert', 'refine', 'add_level', 'ensure_levels')
+
+
+def _mutations(fn):
+    import ast
+    out = []
+    for n in ast.walk(fn):
+        tg = []
+        if isinstance(n, ast.Assign):
+            tg = n.targets
+        elif isinstance(n, ast.AugAssign):
+            tg = [n.target]
+        for t in tg:
+            root, path = t, []
+            while isinstance(root, (ast.Attribute, ast.Subscript)):
+                if isinstance(root, ast.Attribute):
+                    path.append(root.attr)
+                root = root.value
+            if isinstance(root, ast.Name) and root.id == 'self' and path and path[-1] in _STATE_ATTRS:
+                out.append(n.lineno)
+        if isinstance(n, ast.Call) and isinstance(n.func, ast.Attribute) and n.func.attr in _MUT_METHODS:
+            root, path = n.func.value, []
+            while isinstance(root, (ast.Attribute, ast.Subscript)):
+                if isinstance(root, ast.Attribute):
+                    path.append(root.attr)
+                root = root.value
+            if isinstance(root, ast.Name) and root.id == 'self' and path and path[-1] in _STATE_ATTRS:
+                out.append(n.lineno)
+    return out
+
+
+def cache_invalidation_obligations():
+    import ast
+    from pyvc import frontend
+    from pyvc.symexec import Obligation
+    src = frontend.load(F)
+    cls = [c for c in src.classes() if c.name == 'HSpace'][0]
+    methods = {st.name: st for st in cls.body if isinstance(st, ast.FunctionDef)}
+    # private helpers that mutate: their mutation is attributed to the callers
+    mutating = {nm: _mutations(fn) for nm, fn in methods.items()}
+    helpers = {nm for nm, m in mutating.items() if m and nm.startswith('_') and nm != '__init__'}
+    changed = True
+    while changed:          # helpers calling helpers
+        changed = False
+        for nm, fn in methods.items():
+            if nm in helpers or not nm.startswith('_') or nm == '__init__':
+                continue
+            for n in ast.walk(fn):
+                if isinstance(n, ast.Call) and isinstance(n.func, ast.Attribute) and isinstance(n.func.value, ast.Name) and n.func.value.id == 'self' \
+                        and n.func.attr in helpers:
+                    helpers.add(nm)
+                    changed = True
+    def muts_of(nm, fn):
+        muts = list(mutating[nm])
+        for n in ast.walk(fn):
+            if isinstance(n, ast.Call) and isinstance(n.func, ast.Attribute) and isinstance(n.func.value, ast.Name) and n.func.value.id == 'self' \
+                    and n.func.attr in helpers:
+                muts.append(n.lineno)
+        return muts
+
+    def top_level_calls(fn, names):
+        """line numbers of top-level statements `self.X(...)` / `return self.X(...)` with X in names"""
+        out = []
+        for st in fn.body:
+            v = st.value if isinstance(st, (ast.Expr, ast.Return)) else None
+            if isinstance(v, ast.Call) and isinstance(v.func, ast.Attribute) and isinstance(v.func.value, ast.Name) and v.func.value.id == 'self' \
+                    and v.func.attr in names:
+                out.append(st.lineno)
+        return out
+
+    cand = {nm: fn for nm, fn in methods.items() if nm not in helpers and muts_of(nm, fn)}
+    ok_methods = set()
+    status = {}
+    for _ in range(len(cand) + 1):          # fixpoint: delegating to a method that clears the cache counts as clearing
+        for nm, fn in cand.items():
+            muts = muts_of(nm, fn)
+            clears = top_level_calls(fn, {'_clear_cache'} | ok_methods)
+            ok = bool(clears) and max(clears) > max(muts)
+            if ok:
+                stack = list(fn.body)
+                while stack:                  # returns of the method itself (nested helper functions are skipped)
+                    n = stack.pop()
+                    if isinstance(n, (ast.FunctionDef, ast.Lambda)):
+                        continue
+                    if isinstance(n, ast.Return) and min(muts) <= n.lineno < max(clears):
+                        ok = False
+                    stack.extend(ast.iter_child_nodes(n))
+            status[nm] = (ok, muts, clears)
+            if ok:
+                ok_methods.add(nm)
+    obs = []
+    for nm, fn in cand.items():
+        ok, muts, clears = status[nm]
+        o = Obligation('hierarchical:HSpace.%s:cache-invalidated-after-mutation' % nm, 'rule', fn.lineno, [], None,
+                       'HSpace.%s changes actfun/deactfun/the mesh (lines %s) and afterwards unconditionally calls self._clear_cache() or a method that does'
+                       % (nm, sorted(set(muts))[:6]), src=F)
+        o.status, o.backend, o.time = ('proved' if ok else 'refuted'), 'ast-frame-analysis', 0.0
+        if not ok:
+            o.goal = 'state mutated at lines %s; unconditional top-level cache-clearing calls at lines: %s' % (sorted(set(muts)), clears)
+        obs.append(o)
+    if not obs:
+        raise KeyError('no mutating public method of HSpace found')
+    return obs, None
